@@ -108,7 +108,7 @@ def leg_b(rep, n_beh, n_steps, acts, judged=None, seed_off=15, Tmax=10):
     recs = []
     metas = {}
     for b in range(n_beh):
-        r = traj_drive.random_behaviour(b, rng, fams[b % 6], ['chol', 'pmg', 'rot'][b % 3], n_steps, acts, Tmax=Tmax)
+        r = traj_drive.random_behaviour(b, rng, fams[b % len(fams)], ['chol', 'pmg', 'rot'][b % 3], n_steps, acts, Tmax=Tmax)
         recs += r.recs
         metas[b] = r.meta
     verdicts = core.validate_traces('TraceTraj', recs, timeout=2400)
